@@ -1,4 +1,4 @@
-use crate::serialization::utils::deserilized_with_orig_bytes;
+use crate::serialization::utils::{check_len, deserilized_with_orig_bytes};
 use crate::*;
 
 impl cbor_event::se::Serialize for FixedTransaction {
@@ -47,7 +47,7 @@ impl Deserialize for FixedTransaction {
 impl DeserializeEmbeddedGroup for FixedTransaction {
     fn deserialize_as_embedded_group<R: BufRead + Seek>(
         raw: &mut Deserializer<R>,
-        _: cbor_event::Len,
+        len: cbor_event::Len,
     ) -> Result<Self, DeserializeError> {
         let (body, body_bytes) =
             deserilized_with_orig_bytes(raw, |raw| TransactionBody::deserialize(raw))
@@ -63,8 +63,10 @@ impl DeserializeEmbeddedGroup for FixedTransaction {
                     // if it's special it can be either a bool or null. if it's null, then it's empty auxiliary data, otherwise not a valid encoding
                     let special = raw.special()?;
                     if let CBORSpecial::Bool(b) = special {
+                        check_len(len, 4, "(body, witness_set, is_valid, auxiliary_data)")?;
                         return Ok(b);
                     } else if special == CBORSpecial::Null {
+                        check_len(len, 3, "(body, witness_set, auxiliary_data)")?;
                         checked_auxiliary_data = true;
                         return Ok(true);
                     } else {
@@ -72,6 +74,7 @@ impl DeserializeEmbeddedGroup for FixedTransaction {
                     }
                 }
                 false => {
+                    check_len(len, 3, "(body, witness_set, auxiliary_data)")?;
                     let (auxiliary_data_deser, auxiliary_bytes_deser) =
                         deserilized_with_orig_bytes(raw, |raw| AuxiliaryData::deserialize(raw))
                             .map_err(|e| e.annotate("auxiliary_data"))?;
